@@ -3,6 +3,7 @@ package main
 // gen_c13.go — C13: messages and delegation archives read back unchanged.
 
 import (
+	"sync"
 	"bytes"
 	"crypto/sha256"
 	"fmt"
@@ -84,6 +85,11 @@ func (t *linkTable) seq(it func(func(ipld.Block, error) bool)) (string, int, boo
 		n++
 	}
 	return "[" + strings.Join(ids, "; ") + "]", n, okk
+}
+
+func mustSumRaw(digest []byte) mh.Multihash {
+	d, _ := mh.Encode(digest, mh.SHA2_256)
+	return d
 }
 
 func mustSum(data []byte) mh.Multihash {
@@ -351,6 +357,23 @@ func init() {
 				direct = append(direct, map[string]any{"delegation": i, "what": "Extract(Archive(d)) failed: " + err.Error()})
 			} else if why := sameDelegation(t, ex, 0); why != "" {
 				direct = append(direct, map[string]any{"delegation": i, "what": "Extract(Archive(d)) differs: " + why})
+			} else if why := func() string {
+				// what Extract returned is a value of its own: the caller's buffer is reused for the next archive (here:
+				// overwritten) and the delegation read from it stays what it was
+				buf := append([]byte{}, ab...)
+				ex3, err := delegation.Extract(buf)
+				if err != nil {
+					return "Extract of a copy failed: " + err.Error()
+				}
+				for k := range buf {
+					buf[k] = 0xAA
+				}
+				if sum := sha256.Sum256(ex3.Root().Bytes()); ex3.Link().String() != cid.NewCidV1(0x71, mustSumRaw(sum[:])).String() {
+					return "link is no longer the CID of the root block bytes"
+				}
+				return sameDelegation(t, ex3, 0)
+			}(); why != "" {
+				direct = append(direct, map[string]any{"delegation": i, "what": "Extract(buf) changed when buf was reused afterwards: " + why})
 			} else {
 				// second generation: what was read back is archived and read again
 				ab2, err := io.ReadAll(ex.Archive())
@@ -825,6 +848,43 @@ func init() {
 		}
 		covDirect, covRuns := covC13(o.seed) // gen_cov.go: block store options, NewInvocation, Extract / Parse refusals, wrapped receipts
 		direct = append(direct, covDirect...)
+		// ---- tokens issued from several goroutines at once (a client worker pool): every one has the link of ITS root bytes
+		{
+			var wg sync.WaitGroup
+			var cmu sync.Mutex
+			bad := 0
+			for g := 0; g < 8; g++ {
+				wg.Add(1)
+				go func(g int) {
+					defer wg.Done()
+					iss := cast.Ed(fmt.Sprintf("k%d", g%4))
+					for k := 0; k < 40; k++ {
+						var d delegation.Delegation
+						var err error
+						if p := recovered(func() {
+							d, err = delegation.Delegate(iss.Signer, service.DID, []ucan.Capability[ucan.CaveatBuilder]{
+								ucan.NewCapability[ucan.CaveatBuilder]("store/add", iss.DID.String(), Cav{Max: i64(int64(g*1000 + k))})},
+								delegation.WithExpiration(far), delegation.WithNonce(fmt.Sprint("conc", g, k)))
+						}); p != nil || err != nil || d == nil {
+							cmu.Lock()
+							bad++
+							cmu.Unlock()
+							continue
+						}
+						sum := sha256.Sum256(d.Root().Bytes())
+						if d.Link().String() != cid.NewCidV1(0x71, mustSumRaw(sum[:])).String() {
+							cmu.Lock()
+							bad++
+							cmu.Unlock()
+						}
+					}
+				}(g)
+			}
+			wg.Wait()
+			if bad > 0 {
+				direct = append(direct, map[string]any{"delegation": "concurrent", "what": fmt.Sprintf("link is not the CID of the root block bytes (or issuing failed) for %d of 320 delegations issued from 8 goroutines at once", bad)})
+			}
+		}
 		// ---- LARGE messages (an invocation with one 5 MiB attachment; with six 1 MiB attachments): whatever a codec writes
 		// it reads back — there is no size at which blocks stop coming back
 		largeMsgs := 0
